@@ -169,6 +169,13 @@ class Case(object):
         elif r < 0.35:
             self.deletes = rng.sample(ids, rng.randint(0, len(ids) - 1))
         self.split = rng.randint(1, self.nseg - 1) if self.nseg > 1 else 1   # where the schema changes (late/early)
+        lr = random.Random("c14-late-add:%r" % rng.random())
+        self.late_add = lr.random() < 0.6
+        if self.colmode == "added" and self.late_add and ids and lr.random() < 0.7:
+            # make sure the LAST document of some segment is among the deleted ones
+            tail = lr.choice([seg[-1]["id"] for seg in self.segments if seg])
+            if tail not in self.deletes and len(self.deletes) < len(ids) - 1:
+                self.deletes.append(tail)
         # final layout step (own stream: keeps the earlier case stream unchanged): the segments - with their deletions - are
         # rewritten by an optimize or by the default merge policy. Only for uniform column layouts: merging a segment written
         # without a column into one with the column gives those documents the column default (a format limitation)
@@ -180,7 +187,7 @@ class Case(object):
     def layout(self):
         return {"colmode": self.colmode, "segments": [len(s) for s in self.segments], "deletes": len(self.deletes),
                 "kvector": self.kvector, "sparse": self.sparse, "schema_change_after_segment": self.split, "blocklimit": self.blocklimit,
-                "after": self.after}
+                "after": self.after, "add_sortable_after_deletes": self.colmode == "added" and self.late_add}
 
     def build(self):
         from whoosh import sorting
@@ -199,13 +206,17 @@ class Case(object):
             for d in seg:
                 w.add_document(**d)
             w.commit(merge=False)
-        if cm == "added":
+        late_add = cm == "added" and self.late_add
+        if cm == "added" and not late_add:
             self.add_sortable(ix)
         if self.deletes:
             w = ix.writer()
             for k in self.deletes:
                 w.delete_by_term("id", k)
             w.commit(merge=False)
+        if late_add:
+            # the columns are retrofitted into segments that already carry deletions (also of their last documents)
+            self.add_sortable(ix)
         if self.after:
             w = ix.writer(codec=W3Codec(blocklimit=self.blocklimit))
             if self.after == "optimize":
@@ -1049,6 +1060,8 @@ def run(ctx):
             ctx.count("c14.layout.mixed_columns")
         if case.nseg > 1 and case.deletes:
             ctx.count("c14.layout.multiseg_with_deletions")
+        if case.colmode == "added" and case.late_add and case.deletes:
+            ctx.count("c14.layout.add_sortable_over_deletions")
         if case.huge:
             ctx.count("c14.layout.segment_over_2048_docs")
         if case.after:
